@@ -6,8 +6,8 @@ CHECKS = {
         "level": "other",
         "quick_fs": ["default"],
         "thorough_fs": ["default", "checks", "no_copy_impls", "both"],
-        "technique": "MIR decision-tree extraction of match arms + def-use resolution of call arguments; canonical code-class table; sibling cross-check",
-        "claim": "Exhaustive over the finite arm space of all 10 dispatch tables (3x Codes, 3x ConstCode, 4x function-pointer constructors incl. the factory: 12+51+59 keys each) and 15 forwarding wrappers: every arm performs exactly one stream operation, of the canonical code class its key names, on the dispatcher's own stream/value arguments, and returns that operation's result; read/write/len siblings agree per key; key sets agree. Decides which code is performed, not that the code's own method is right (C03/C04).",
+        "technique": "MIR decision-tree extraction of match arms (private helpers walked in context) + def-use resolution of call arguments; canonical code-class table; sibling cross-check; whole-domain abstract interpretation for length expressions that are not calls of a known length function",
+        "claim": "Exhaustive over the finite arm space of all 10 dispatch tables (3x Codes, 3x ConstCode, 4x function-pointer constructors incl. the factory: 12+51+59 keys each) and 15 forwarding wrappers: every arm performs exactly one stream operation, of the canonical code class its key names, on the dispatcher's own stream/value arguments, and returns that operation's result; read/write/len siblings agree per key; key sets agree. A length arm written as a formula instead of a call (e.g. a closed form for VByte) is compared with the class's length function on every 64-bit value by the value-partition interpreter. Decides which code is performed, not that the code's own method is right (C03/C04).",
         "note": "Trusted: rustc MIR construction, the exporter, the callee->family table and the canonical identities of DESIGN.md appendix A (zeta1=pi0=expgolomb0=gamma, rice0=golomb1=unary, golomb(2^j)=rice(j)).",
         "explanation": "Exhaustive structural check of every dispatch table in the exported MIR: each match arm / "
                        "identifier / associated fn constant is resolved to the single stream-consuming call it makes and "
@@ -21,8 +21,8 @@ CHECKS["C16"] = {
     "level": "other",
     "quick_fs": ["default"],
     "thorough_fs": ["default", "both"],
-    "technique": "MIR decision trees of Display/FromStr/to_code_const/from_code_const/PartialEq; decoded format templates; canonical code-class table",
-    "claim": "Exhaustive over the finite tables: for each of the 11 variants the text Display prints (literal, or Name({field}) decoded from the compiled format template) reaches a FromStr arm that constructs the same variant with the parsed number in the same field; unknown names fall through to Err and every Option/Result on the parameter path is `?`-propagated; all 59 to_code_const arms and 51 from_code_const arms map between codes and identifiers of one canonical class, from/to are mutually inverse on 0..=50, out-of-range is an error; every pair PartialEq declares equal lies in one canonical class and every variant equals itself. Numeric parsing itself is std's.",
+    "technique": "MIR decision trees of Display/FromStr/PartialEq with helpers walked in context; decoded format templates; abstract interpretation of to_code_const / from_code_const over every variant, parameter and identifier value; canonical code-class table",
+    "claim": "Exhaustive over the finite tables: for each of the 11 variants the text Display prints (literal, or Name({field}) decoded from the compiled format template) reaches a FromStr arm that constructs the same variant with the parsed number in the same field; unknown names fall through to Err and every Option/Result on the parameter path is branched on (by `?` or a match) with its failure leading to Err, never defaulted; to_code_const and from_code_const, interpreted as functions on every (variant, parameter) and every identifier value (so range patterns, arithmetic on the identifier or enumerated arms are all the same to the rule), map between codes and identifiers of one canonical class, are mutually inverse on 0..=50, and yield an error everywhere else; every pair PartialEq declares equal lies in one canonical class and every variant equals itself. Numeric parsing itself is std's.",
     "note": "Trusted: rustc MIR construction and format_args lowering (byte template), the exporter, the canonical identities of DESIGN.md appendix A.2, std's str::split/parse contracts.",
     "explanation": "Structural, exhaustive over match arms: Display arms are decoded from the compiled format templates and matched against the decision tree of FromStr (string literal comparisons and the parse path); identifier conversions and PartialEq are checked arm by arm against the canonical code classes.",
 }
@@ -43,8 +43,8 @@ CHECKS["C14"] = {
     "level": "other",
     "quick_fs": ["default"],
     "thorough_fs": ["default", "both"],
-    "technique": "MIR path rules with closure inlining: one forwarded call per wrapper method, argument/result pass-through, counter increment term vs declared stream effect",
-    "claim": "For all 36 trait-method implementations of CountBitReader/Writer and DbgBitReader/Writer: every returning path makes exactly one call of the same operation on the inner stream with the wrapper's own arguments and returns that result unchanged (transparency); for the 20 counting methods the counter's increment term on each Ok path (closures passed to Result::inspect are inlined) equals the operation's declared stream effect (n, x+1, len_code(x), returned count, 0 for peek/flush). Codes the wrappers do not override run on these primitives, so they are exact iff the primitives are. Err paths are not constrained (the property is silent there).",
+    "technique": "MIR path rules with closure inlining and Ok-payload normalisation (`?`, inspect, explicit match): one forwarded call per wrapper method, argument/result pass-through, counter increment term vs declared stream effect",
+    "claim": "For all 36 trait-method implementations of CountBitReader/Writer and DbgBitReader/Writer: every returning path makes exactly one call of the same operation on the inner stream with the wrapper's own arguments and returns that result unchanged (transparency); for the 20 counting methods the counter's increment term on each Ok path (closures passed to Result::inspect are inlined) equals the operation's declared stream effect (n, x+1, len_code(x), returned count, 0 for peek/flush, n for an overridden copy_to/copy_from); a stream method whose effect is not declared is reported. Codes the wrappers do not override run on these primitives, so they are exact iff the primitives are. Err paths are not constrained (the property is silent there).",
     "note": "Trusted: rustc MIR, exporter, std contract of Result::inspect (calls the closure with &T on Ok, returns self), declared effects table (DESIGN.md appendix B), exactness of len_* (C06).",
     "explanation": "Structural over all wrapper methods: forwarding shape and symbolic counter increments on every path.",
 }
@@ -54,7 +54,7 @@ CHECKS["C15"] = {
     "level": "other",
     "quick_fs": ["default"],
     "thorough_fs": ["default", "both"],
-    "technique": "MIR path rules over update/add/best_code/wrapper bodies with def-use terms: field coverage against the ADT, field<->len-function<->parameter-offset agreement, min-scan shape, Mutex-guarded single update",
+    "technique": "MIR path rules over update/add/best_code/wrapper bodies with def-use terms: field coverage against the ADT, field<->len-function<->parameter-offset agreement, min-scan shape (running pair identified from the returned value, helpers walked in context), element-wise merge idioms (zip / enumerate / index loop with the array's own bound), Mutex-guarded single update",
     "claim": "Shape of exactness, mergeability and thread safety: against the ADT's field list, Default zeroes, update_many accumulates len_F(n, index+off_F)*count into, add merges same-field-to-same-field, and best_code scans every field; the per-family parameter offset used when accumulating equals the one used when reporting the best code; best_code is a strict-minimum scan that replaces cost and code together and returns (code, cost); AddAssign/Add/Sum reduce to add; the wrapper performs exactly one update(v) per successful read/write (v = value read / value written), none on error, through Mutex::lock on the only field holding the statistics. Interleavings are discharged by Rust's aliasing rules plus this shape (commutative additions under one lock), not explored. Exactness of len_* itself is C06.",
     "note": "Trusted: rustc MIR, exporter, field table of DESIGN.md appendix A.3, std Mutex contract.",
     "explanation": "Structural: every field of the ADT is matched against the accumulate / merge / scan code on all paths (loops entered once).",
@@ -65,8 +65,8 @@ CHECKS["C11"] = {
     "level": "other",
     "quick_fs": ["default"],
     "thorough_fs": ["default", "both"],
-    "technique": "MIR call-site rules: transfer-count use for partial-transfer std::io calls, Result discipline, byte-order pairing and seek-constant agreement of sibling methods",
-    "claim": "Decides the structural half of loss-freedom under I/O faults by reduction to std's contracts instead of enumerating fault schedules: in WordAdapter every std::io call that may legally transfer fewer bytes than asked (Read::read / Write::write) must use its returned count, while write_all/read_exact satisfy the rule by their documented contract (loop on short counts, retry Interrupted, error otherwise); every io::Result is propagated; write_word serialises exactly its argument with the byte order read_word deserialises; word_pos/set_word_pos divide/multiply by the same W::BYTES. Does not decide byte values.",
+    "technique": "MIR call-site rules: transfer-count use for partial-transfer std::io calls, Result discipline, byte-order pairing; abstract interpretation of word_pos / set_word_pos for every word size and position",
+    "claim": "Decides the structural half of loss-freedom under I/O faults by reduction to std's contracts instead of enumerating fault schedules: in WordAdapter every std::io call that may legally transfer fewer bytes than asked (Read::read / Write::write) must use its returned count, while write_all/read_exact satisfy the rule by their documented contract (loop on short counts, retry Interrupted, error otherwise); every io::Result is propagated; write_word serialises exactly its argument with the byte order read_word deserialises; for W in {u8..u128} and every stream position (residue classes of the value-partition interpreter) word_pos() = ceil(stream_position / W::BYTES) and set_word_pos(w) seeks to SeekFrom::Start(w * W::BYTES), whatever arithmetic computes them. Does not decide byte values.",
     "note": "Trusted: std::io contracts of write_all/read_exact/seek/stream_position, rustc MIR, exporter.",
     "explanation": "Structural rules over the five WordAdapter trait methods (all paths).",
 }
@@ -186,7 +186,7 @@ CHECKS["C19"] = {
     "quick_fs": ["default", "checks"],
     "thorough_fs": ["default", "checks", "no_copy_impls", "both"],
     "technique": "MIR differencing between feature sets with path-signature comparison; bit-range abstract domain for `value fits in n bits` at every library write_bits call site under `checks`; E3 re-run per feature set",
-    "claim": "Code the pinned suite never compiles: (G1) under `checks`, at every write_bits(v, n) issued by the code writers, the specialised and generic bulk copies and io::Write, the bit-range of v lies below n (xor-with-top-bit, masks, shifts, reader-buffer cleanliness), so the argument check cannot fire on in-domain library calls (two sites assumed: lemmas L8, L9); (G2) both write_bits impls carry the assertion value & mask(n) == value; (G3) every function whose MIR differs from the default build performs, on every path, the same stream calls with the same widths and the same result shape - only the value operand of write_bits differs; (G4) the numeric obligations of code writers and copy paths hold on each feature set (no shift/overflow that only one profile would trap). Quick covers {default, checks}; thorough all four sets. Undecided: equality of values across builds beyond this confinement.",
+    "claim": "Code the pinned suite never compiles: (G1) under `checks`, at every write_bits(v, n) issued by the code writers, the specialised and generic bulk copies and io::Write, the bit-range of v lies below n (xor-with-top-bit, masks, shifts, reader-buffer cleanliness), so the argument check cannot fire on in-domain library calls (one site assumed: lemma L8; where the bit-range domain cannot see how a code writer cleans its operand the question is decided by interpreting the writer on every value over the whole parameter range); (G2) both write_bits impls carry the assertion value & mask(n) == value and no successful path skips it; (G3) every function whose MIR differs from the default build performs, on every path, the same stream calls with the same widths and the same result shape - only the value operand of write_bits differs; (G4) the numeric obligations of code writers and copy paths hold on each feature set (no shift/overflow that only one profile would trap). Quick covers {default, checks}; thorough all four sets. Undecided: equality of values across builds beyond this confinement.",
     "note": "Trusted: rustc MIR per feature set, exporter, bit-range transfer functions, contracts, LP entailment.",
     "explanation": "feature-set differencing + bit-range obligations + E3",
 }
